@@ -10,7 +10,7 @@ from ..kernelcases import DTYPES, MIN_INT, encode_values, mask_token
 
 PID = "C09"
 MODULES = ["GroupbyVerif.Props.C09"]
-RULE = ("seeded random interleavings of <= 3 groups with null codes/keys x window 1..5 x min_periods 1..window x null placements x boolean masks x "
+RULE = ("seeded random interleavings of <= 3 groups with null codes/keys x window 1..5 x min_periods 1..window (and the boundary value 0) x null placements x boolean masks x "
         "value dtype classes f64 f32 i32 i64(small) M8[ns] with sub-microsecond digits m8[s] x {rolling sum, mean, min, max, shift, diff} at the kernel "
         "level (numba.rolling_*) and through GroupBy.rolling_*/shift/diff with both index_by_groups settings; boundary windows 32767/32768/40000 with a "
         "longer group in both tiers; exhaustive <= 6 rows, <= 2 groups, window <= 3 in the thorough tier; non-trivial = a group with > window selected rows; "
@@ -72,7 +72,7 @@ def gen_cases(tier, rng):
         if dt in ("M8ns",) and op in ("sum", "mean"):
             op = rng.choice(["min", "max", "shift", "diff"])
         w = rng.randint(1, 5)
-        minp = rng.randint(1, w)
+        minp = 0 if rng.random() < 0.1 else rng.randint(1, w)  # 0 is outside the property's range but accepted by the code: tied to the model too
         level = rng.choice(["kernel", "public", "public"])
         by_groups = level == "public" and op in ("sum", "mean", "min", "max") and rng.random() < 0.3 and dt in ("f64", "f32")
         yield dict(level=level, op=op, dt=dt, window=w, minp=minp, codes=codes, vals=vals, mask=mask, ng=ng, by_groups=by_groups,
